@@ -64,7 +64,7 @@ FCause(m, p, id) ==
          ELSE "flush-missed"
 SCause(m, p, id, first) ==
   IF m.cfg.hooks
-    THEN IF id \in m.raced THEN "shutdown-missed-raced"
+    THEN IF id \in m.raced /\ id \notin m.sdheld THEN "shutdown-missed-raced"   \* not taken by the final flush
          ELSE IF Get(m.early, p, "no") = "processor" THEN "shutdown-missed-during-shutdown"
          ELSE IF Aborted(m, id) THEN "missed-chunk-aborted"
          ELSE "shutdown-missed"
